@@ -63,7 +63,7 @@ Definition enc_law (l : list (Z * Q)) : list Z :=
 Definition judge (t : tree) : option (list Z) :=
   match t with
   | L [L [_; _; L [pol; pop; spec]]; o] =>
-    olet pol := tbool pol in olet pop := tlist (tlist tZ) pop in olet s := dec_sel spec in
+    olet pol := option_map Z.odd (tZ pol) in olet pop := tlist (tlist tZ) pop in olet s := dec_sel spec in
     match build_error s with
     | Some (a, b) =>
       Some [match o with
